@@ -92,6 +92,11 @@ IOp(m) ==
     /\ Deep /\ Bound(m)
     /\ heap' = [heap EXCEPT ![env[m]].cells = [k \in DOMAIN @ |-> -@[k]]]
     /\ UNCHANGED <<env, views, nextid>> /\ last' = [a |-> "IOp", m |-> m, ok |-> TRUE]
+\* an in-place operator whose operand would widen the typecode (A += 1.5 for an integer A, A *= 1j for a real A, also /=, -=, %=):
+\* "in-place operations are only defined if they do not change the type of A" - refused, nothing changes (a view may hold the storage)
+IOpWiden(m) ==
+    /\ Deep /\ Bound(m) /\ Obj(m).kind = "dense" /\ Obj(m).tc \in {"i", "d"}
+    /\ UNCHANGED <<env, heap, views, nextid>> /\ last' = [a |-> "IOpWiden", m |-> m, ok |-> FALSE]
 \* m.size = (nc, nr) for a dense matrix: the same storage read with another shape (live views keep the shape they were created with)
 Reshape(m) ==
     /\ Deep /\ Bound(m) /\ Obj(m).kind = "dense" /\ Obj(m).nr # Obj(m).nc
@@ -114,6 +119,7 @@ Next == \/ \E n \in Names, t \in DOMAIN Templates : New(n, t)
         \/ \E m \in Names, k \in 1..4 : WriteMat(m, k)
         \/ \E v \in Views, k \in 1..4 : WriteView(v, k)
         \/ \E m \in Names : IOp(m)
+        \/ \E m \in Names : IOpWiden(m)
         \/ \E m \in Names : Reshape(m)
         \/ \E v \in Views : Release(v)
         \/ \E n \in Names : Drop(n)
